@@ -45,7 +45,8 @@ REFINING_TESTS = {
 # RELATIVE_TYPES and ABSOLUTE_TYPES (checked against the source by check_type_constants)
 TYPE_SETS = ("RELATIVE_TYPES", "ABSOLUTE_TYPES")
 MESSAGE_NODES = (ast.Tuple, ast.Constant, ast.JoinedStr, ast.FormattedValue, ast.Starred,
-                 ast.ListComp, ast.comprehension, ast.Name, ast.Attribute, ast.Load, ast.Store)
+                 ast.ListComp, ast.GeneratorExp, ast.comprehension, ast.Name, ast.Attribute, ast.Load,
+                 ast.Store, ast.BinOp, ast.Add)
 
 
 def is_message_expr(node):
@@ -53,8 +54,8 @@ def is_message_expr(node):
     has_text = False
     for n in ast.walk(node):
         if isinstance(n, ast.Call):
-            if not (isinstance(n.func, ast.Name) and n.func.id == "type" and len(n.args) == 1
-                    and not n.keywords):
+            if not (isinstance(n.func, ast.Name) and n.func.id in ("type", "tuple", "list")
+                    and len(n.args) == 1 and not n.keywords):
                 return False
         elif not isinstance(n, MESSAGE_NODES):
             return False
@@ -89,6 +90,14 @@ def find(mod, path):
         else:
             raise Unsupported("missing " + path)
     return node
+
+
+def _is_str_test(t, var):
+    """isinstance(<var>, (str, bytes))"""
+    return isinstance(t, ast.Call) and ast.unparse(t.func) == "isinstance" and len(t.args) == 2 \
+        and not t.keywords and isinstance(t.args[0], ast.Name) and t.args[0].id == var \
+        and isinstance(t.args[1], ast.Tuple) \
+        and sorted(ast.unparse(x) for x in t.args[1].elts) == ["bytes", "str"]
 
 
 def is_docstring(s):
@@ -251,6 +260,24 @@ class Tr:
             return "tt", "MSG", False
         raise Unsupported("expression " + ast.dump(e)[:120])
 
+    def elements_of(self, it, env):
+        """`np.asarray(x, dtype=object).ravel()` (or `x` itself): iteration over the elements of a
+        list / array argument; returns the translated sequence or None."""
+        node = it
+        if isinstance(it, ast.Call) and isinstance(it.func, ast.Attribute) and it.func.attr == "ravel" \
+                and not it.args and not it.keywords and isinstance(it.func.value, ast.Call) \
+                and ast.unparse(it.func.value.func) in ("np.asarray", "np.array") \
+                and len(it.func.value.args) == 1 \
+                and [(k.arg, ast.unparse(k.value)) for k in it.func.value.keywords] == [("dtype", "object")]:
+            node = it.func.value.args[0]
+        elif not isinstance(it, ast.Name):
+            return None
+        try:
+            v = self.ex(node, env)
+        except Unsupported:
+            return None
+        return v if v[1] == "SQ" else None
+
     def _bad(self, e):
         raise Unsupported("expression " + ast.unparse(e))
 
@@ -325,11 +352,15 @@ class Tr:
                 if f.attr == "nunique":
                     return self.lift([v], lambda a: ("(nunique %s)" % a[0], "Z", False))
                 return self.lift([v], lambda a: ("(isort %s)" % a[0], "L", False))
-        if callee == "_contains_strings" and len(e.args) == 1 and not e.keywords:
-            self.facts.require_contains_strings()
-            v = self.ex(e.args[0], env)
-            self.need(v[1], "SQ", e)
-            return self.lift([v], lambda a: ("(seq_has_str %s)" % a[0], "B", False))
+        if callee == "any" and len(e.args) == 1 and not e.keywords \
+                and isinstance(e.args[0], (ast.GeneratorExp, ast.ListComp)) \
+                and len(e.args[0].generators) == 1 and not e.args[0].generators[0].ifs \
+                and isinstance(e.args[0].generators[0].target, ast.Name):
+            # any(isinstance(v, (str, bytes)) for v in <the elements of a list / array>)
+            g = e.args[0].generators[0]
+            seq = self.elements_of(g.iter, env)
+            if seq is not None and _is_str_test(e.args[0].elt, g.target.id):
+                return self.lift([seq], lambda a: ("(seq_has_str %s)" % a[0], "B", False))
         if callee == "_check_values" and len(e.args) == 1 and not e.keywords:
             v = self.ex(e.args[0], env)
             self.need(v[1], "IN", e)
@@ -626,6 +657,18 @@ class Tr:
             if s.value is None:
                 raise Unsupported("bare return")
             return self.out(self.ex(s.value, env), s)
+        if isinstance(s, ast.For) and not s.orelse and isinstance(s.target, ast.Name) \
+                and len(s.body) == 1 and isinstance(s.body[0], ast.If) and not s.body[0].orelse \
+                and len(s.body[0].body) == 1 and isinstance(s.body[0].body[0], ast.Raise) \
+                and _is_str_test(s.body[0].test, s.target.id):
+            # for v in <elements>: if isinstance(v, (str, bytes)): raise ...
+            seq = self.elements_of(s.iter, env)
+            if seq is not None and not seq[2]:
+                if not (self.raises or self.cfg.get("infer")):
+                    raise Unsupported("raise in a function configured as total")
+                body = self.block(rest, env)
+                bt = body[0] if body[2] else "(Ok %s)" % body[0]
+                return "(if (seq_has_str %s) then Err else %s)" % (seq[0], bt), body[1], True
         if isinstance(s, ast.Assert):
             raise Unsupported("assert reached in the integer world: " + ast.unparse(s))
         if isinstance(s, ast.Expr) and isinstance(s.value, ast.Call):
@@ -749,15 +792,6 @@ class Facts:
             raise Unsupported("%s is no longer delegated to the wrapped index" % name)
         if name in self.methods:
             raise Unsupported("%s is now defined on the class itself" % name)
-
-    def require_contains_strings(self):
-        """Helper of the proposed fix for F-C02-1; modelled as Model.seq_has_str."""
-        fn = find(self.mod, "_contains_strings")
-        body = [ast.unparse(x) for x in fn.body if not is_docstring(x)]
-        want = ["return any((isinstance(v, (str, bytes)) for v in "
-                "np.asarray(values, dtype=object).ravel()))"]
-        if [a.arg for a in fn.args.args] != ["values"] or body != want:
-            raise Unsupported("_contains_strings shape: %s" % body)
 
     def require_method(self, name):
         if name not in self.methods:
